@@ -207,5 +207,11 @@ def tasks(tier):
         ts.append(Task(f'cancel-after-other.{side}', t_cancel_after_other(side), extra=x, overrides=dict(ov)))
     import props.C03 as P3
     ts.append(Task('init.spot', P3.t_init('spot'), extra=dict(x, spec_mod=P3.SPEC), overrides=dict(ov)))
+    # no short position ever exists: exits routed by the broker are reduce-only on a spot exchange, too (shared with C10); an order
+    # that was cancelled has no effect on the balances when the flush reaches it (shared with C05)
+    import props.C10 as P10
+    import props.C05 as P5
+    ts.append(Task('exit.spot', P10.t_exit('long', True, 'spot'), extra=dict(x, spec_mod=P10.SPEC), overrides=dict(ov)))
+    ts += [t for t in P5.tasks(tier) if t.id.startswith('execute.CANCELED.')]
     ts.append(Task('float-boundary', t_float_boundary, extra=dict(x, bounded='1024 decimal histories on the grid 0.05..3.3 (native, binary floats vs exact model)')))
     return ts
